@@ -54,7 +54,7 @@ func collectFields(reqCtx *OperationContext, selSet ast.SelectionSet, satisfies 
 			if !shouldIncludeNode(sel.Directives, reqCtx.Variables) {
 				continue
 			}
-			shouldDefer, label := deferrable(sel.Directives, reqCtx.Variables)
+			shouldDefer, label := deferrable(reqCtx, sel.Directives)
 
 			for _, childField := range collectFields(reqCtx, sel.SelectionSet, satisfies, visited) {
 				f := getOrCreateAndAppendField(
@@ -90,7 +90,7 @@ func collectFields(reqCtx *OperationContext, selSet ast.SelectionSet, satisfies 
 				continue
 			}
 
-			shouldDefer, label := deferrable(sel.Directives, reqCtx.Variables)
+			shouldDefer, label := deferrable(reqCtx, sel.Directives)
 
 			for _, childField := range collectFields(reqCtx, fragment.SelectionSet, satisfies, visited) {
 				f := getOrCreateAndAppendField(&groupedFields,
@@ -199,11 +199,17 @@ func shouldIncludeNode(directives ast.DirectiveList, variables map[string]any) b
 	return !skip && include
 }
 
-func deferrable(directives ast.DirectiveList, variables map[string]any) (shouldDefer bool, label string) {
+func deferrable(reqCtx *OperationContext, directives ast.DirectiveList) (shouldDefer bool, label string) {
 	d := directives.ForName("defer")
 	if d == nil {
 		return false, ""
 	}
+	// only queries deliver incremental payloads: in a mutation or subscription a deferred group
+	// would be started but never delivered (its fields would stay null), so @defer has no effect there
+	if reqCtx.Operation != nil && reqCtx.Operation.Operation != ast.Query {
+		return false, ""
+	}
+	variables := reqCtx.Variables
 
 	shouldDefer = true
 
